@@ -65,8 +65,11 @@ pub enum Blk {
     ZeroParentLowId,
     ZeroParentHighId,
     FetchFails,
+    /// creator signature / a transaction signature with every byte 0xFF (not a curve point's range)
+    CreatorSigFf,
+    TxSigFf,
 }
-pub const BLKS: [Blk; 21] = [
+pub const BLKS: [Blk; 23] = [
     Blk::Garbage,
     Blk::Truncated,
     Blk::HeaderOnly,
@@ -87,6 +90,8 @@ pub const BLKS: [Blk; 21] = [
     Blk::OrphanLowId,
     Blk::ZeroParentLowId,
     Blk::ZeroParentHighId,
+    Blk::CreatorSigFf,
+    Blk::TxSigFf,
     Blk::FetchFails,
 ];
 
@@ -105,8 +110,14 @@ pub enum Txk {
     BadSig,
     GarbagePath,
     Spent,
+    /// signature bytes outside the curve's range: both halves, r only, s only all 0xFF; and a hop
+    /// signature of that kind on an otherwise honest transaction
+    SigAllFf,
+    SigRFf,
+    SigSFf,
+    HopSigFf,
 }
-pub const TXKS: [Txk; 13] = [
+pub const TXKS: [Txk; 17] = [
     Txk::Gt96,
     Txk::GtBadTarget,
     Txk::NoFrom,
@@ -120,6 +131,10 @@ pub const TXKS: [Txk; 13] = [
     Txk::BadSig,
     Txk::GarbagePath,
     Txk::Spent,
+    Txk::SigAllFf,
+    Txk::SigRFf,
+    Txk::SigSFf,
+    Txk::HopSigFf,
 ];
 
 #[derive(Clone, Copy, Debug, PartialEq, Eq, PartialOrd, Ord)]
@@ -138,6 +153,7 @@ pub enum Msg {
     KeyListBurst,
     HsResponseGarbage,
     HsResponseOtherKey,
+    HsResponseSigFf,
     HsChallenge,
     HsBurst,
     Services,
@@ -154,7 +170,7 @@ pub enum Msg {
     TruncatedTx,
     TruncatedBlock,
 }
-pub const MSGS: [Msg; 29] = [
+pub const MSGS: [Msg; 30] = [
     Msg::BlockTag,
     Msg::ChainReqZero,
     Msg::ChainReqHuge,
@@ -169,6 +185,7 @@ pub const MSGS: [Msg; 29] = [
     Msg::KeyListBurst,
     Msg::HsResponseGarbage,
     Msg::HsResponseOtherKey,
+    Msg::HsResponseSigFf,
     Msg::HsChallenge,
     Msg::HsBurst,
     Msg::Services,
@@ -398,6 +415,27 @@ fn hostile_tx(u: &Uni, k: Txk) -> Transaction {
             t.signature[3] ^= 1;
             t
         }
+        Txk::SigAllFf | Txk::SigRFf | Txk::SigSFf => {
+            let mut t = u.honest_tx.clone();
+            let (a, b) = match k {
+                Txk::SigAllFf => (0, 64),
+                Txk::SigRFf => (0, 32),
+                _ => (32, 64),
+            };
+            for x in t.signature[a..b].iter_mut() {
+                *x = 0xFF;
+            }
+            t
+        }
+        Txk::HopSigFf => {
+            let mut t = u.honest_tx.clone();
+            t.path.clear();
+            add_hops(&mut t, &[atk], &key(5).public);
+            if let Some(h) = t.path.last_mut() {
+                h.sig = [0xFF; 64];
+            }
+            t
+        }
         Txk::GarbagePath => {
             let mut t = make_tx(&[], &[(atk.public, 0)], &atk, ts, b"path");
             add_hops(&mut t, &[atk, key(4)], &key(5).public);
@@ -485,6 +523,24 @@ fn hostile_block(u: &Uni, k: Blk) -> ([u8; 32], u64, Option<Vec<u8>>) {
             (b.hash, b.id, Some(block_bytes(&b)))
         }
         Blk::FetchFails => ([0x33; 32], 4, None),
+        Blk::CreatorSigFf => {
+            let mut b = x.clone();
+            b.signature = [0xFF; 64];
+            if b.generate().is_err() {
+                b.hash = [0x36; 32];
+            }
+            (b.hash, b.id, Some(block_bytes(&b)))
+        }
+        Blk::TxSigFf => {
+            let mut b = x.clone();
+            if let Some(t) = b.transactions.iter_mut().find(|t| t.transaction_type == TransactionType::Normal) {
+                t.signature = [0xFF; 64];
+            }
+            if b.generate().is_err() {
+                b.hash = [0x37; 32];
+            }
+            (b.hash, b.id, Some(block_bytes(&b)))
+        }
     }
 }
 
@@ -553,6 +609,11 @@ fn hostile_msg(u: &Uni, m: Msg) -> Vec<Vec<u8>> {
         Msg::HsResponseGarbage => {
             let mut r = response(&key(3), &[0x44; 32], [0x45; 32], "http://hostile");
             r.signature[4] ^= 1;
+            one(Message::HandshakeResponse(r))
+        }
+        Msg::HsResponseSigFf => {
+            let mut r = response(&key(3), &[0x44; 32], [0x45; 32], "http://hostile");
+            r.signature = [0xFF; 64];
             one(Message::HandshakeResponse(r))
         }
         Msg::HsResponseOtherKey => one(Message::HandshakeResponse(response(&key(4), &[0x44; 32], [0x45; 32], "http://other"))),
